@@ -28,7 +28,11 @@ func TestMain(m *testing.M) {
 
 type Case = copysc.Case
 
-func gen(t *rapid.T) Case { return copysc.Gen(t, copysc.DefaultGen()) }
+func gen(t *rapid.T) Case {
+	o := copysc.DefaultGen()
+	o.Cancel = true // a caller that gives up mid-copy: the copy may fail, but a nil return still has to mean a complete image
+	return copysc.Gen(t, o)
+}
 
 func optKey(o copysc.CopyOpts) string {
 	return fmt.Sprintf("f%v,r%v/%s/%s=%s,d%v,x%v,q%v,c%v", o.ForceRecursive, o.Referrers, o.RefArtifactType, o.RefAnnotKey, o.RefAnnotVal, o.DigestTags, o.IncludeExternal, o.FastCheck, o.Callback)
@@ -212,6 +216,9 @@ func check(c Case, ev *evid.Collector) *evid.Violation {
 		classes = append(classes, "outcome:watchdog")
 		ev.Case(false, "", classes...)
 		return nil
+	}
+	if cerr == nil && c.CancelAt > 0 {
+		classes = append(classes, "outcome:success-although-the-caller-cancelled")
 	}
 	if cerr != nil {
 		msg := cerr.Error()
